@@ -279,3 +279,24 @@ def gen_hooks(rng, names=('before_start', 'before_spawn', 'after_spawn',
             hooks[h] = {'script': gen_hook_script(rng, bad_p=bad_p),
                         'ignore': rng.random() < 0.3}
     return hooks
+
+
+def add_on_demand(rng, cfg, ops):
+    """turn one watcher into an on-demand watcher (started by a socket event
+    from the periodic check, outside the command lock) and sprinkle socket
+    events over the history"""
+    cfg['sockets'] = [{'name': 'ondemand'}]
+    wc = rng.choice(cfg['watchers'])
+    wc['opts'].update({'on_demand': True, 'use_sockets': True,
+                       'numprocesses': rng.choice([1, 2, 3]),
+                       'warmup_delay': rng.choice([0, 0.3, 1.7])})
+    wc['opts'].pop('singleton', None)
+    n = rng.choice([1, 2, 3])
+    for _ in range(n):
+        pos = rng.randrange(len(ops) + 1)
+        ops.insert(pos, {'op': 'connect', 's': 0,
+                         'place': gen_place(rng, rng.random() < 0.5)})
+        if rng.random() < 0.5:
+            ops.insert(pos + 1, {'op': 'wait', 'kind': 'time',
+                                 'n': rng.choice([0.2, 1.1, 2.0])})
+    return cfg['watchers'].index(wc)
